@@ -452,17 +452,16 @@ func (mr *msgReader) read(p []byte) (int, error) {
 		}
 
 		n, err := mr.c.readFramePayload(mr.ctx, p)
-		if err != nil {
-			return n, err
-		}
 
+		// Also when the read failed part way: the n bytes that were read are
+		// handed to the caller and so must be unmasked like any others.
 		mr.payloadLength -= int64(n)
 
 		if !mr.c.client {
-			mr.maskKey = mask(p, mr.maskKey)
+			mr.maskKey = mask(p[:n], mr.maskKey)
 		}
 
-		return n, nil
+		return n, err
 	}
 }
 
